@@ -3,13 +3,16 @@
    the ontology-level properties.  The harness builds the same world with the
    real crate and prints the same observation. *)
 From HpoV Require Import Gen.Consts Model.Base Model.Group Model.Onto Model.F32 Model.IC
-  Model.Query Model.Dump Model.Script Model.Binary Model.SubOnt Model.Text.
+  Model.Query Model.Dump Model.Script Model.Bulk Model.Binary Model.SubOnt Model.Text.
 
 Inductive world :=
 | WBuilder (s : script)
 | WBytes (b : list N)
 | WJax (transitive : bool) (obo genes hpoa : list N)   (* from_standard / from_standard_transitive *)
-| WSub (w : world) (root : N) (leaves : list N).
+| WSub (w : world) (root : N) (leaves : list N)
+(* the script with [count] add_gene / add_omim_disease / add_orpha_disease calls (tag 0 / 1 / 2; ids
+   first, first+1, ...) between connect_all_terms and the script's own annotation calls: Model/Bulk.v *)
+| WBulk (s : script) (tag first count : N).
 
 (* the f32::ln oracle table travels with the case *)
 Definition winput : Type := world * list (N * N).
@@ -19,6 +22,7 @@ Definition wobs : Type := res (list N * res donto).
 Fixpoint build_world (tbl : list (N * N)) (w : world) : res (list N * res onto) :=
   match w with
   | WBuilder s => run_script (ic32 (table_oracle tbl)) s
+  | WBulk s tag first count => run_script_bulk (ic32 (table_oracle tbl)) s tag first (N.to_nat count)
   | WBytes b =>
       match decode (ic32 (table_oracle tbl)) b with
       | Panic => Panic
